@@ -67,8 +67,40 @@ def exclusions() -> List[CL.SiteExclusion]:
     ]
 
 
+def l2_premise(ctx: Ctx):
+    """_borrow borrows, for every symbol to hold, exactly what the AVAILABLE balance is short of the amount to hold."""
+    bo = ctx.func(f"{OM}._borrow")
+    req = bo.params[1]
+    defs = {s.target.id: s.node.value for s in A.stores(bo) if isinstance(s.target, ast.Name) and isinstance(s.node, ast.Assign)}
+    ph = next((k for k, v in defs.items() if isinstance(v, ast.DictComp) and "get_available_balance" in ast.unparse(v)), None)
+    ok1 = False
+    if ph is not None:
+        v = defs[ph]
+        gen = v.generators[0]
+        ok1 = ast.unparse(gen.iter) == f"{req}.items()" and isinstance(gen.target, ast.Tuple) and not gen.ifs and \
+            ast.unparse(v.value) == f"self._ctx.account_balances.get_available_balance({gen.target.elts[0].id}) - {gen.target.elts[1].id}" \
+            and ast.unparse(v.key) == gen.target.elts[0].id
+    bs = next((k for k, v in defs.items() if isinstance(v, ast.DictComp) and ph is not None and ast.unparse(v.generators[0].iter) == f"{ph}.items()"), None)
+    ok2 = False
+    if bs is not None:
+        v = defs[bs]
+        gen = v.generators[0]
+        a_ = gen.target.elts[1].id
+        ok2 = ast.unparse(v.value) == f"-{a_}" and [ast.unparse(i) for i in gen.ifs] == [f"{a_} < Decimal(0)"]
+    loops = [n for n in ast.walk(bo.node) if isinstance(n, ast.For) and bs is not None and ast.unparse(n.iter) == f"{bs}.items()"]
+    ok3 = False
+    if loops:
+        sym, amt = [e.id for e in loops[0].target.elts]
+        ok3 = any(isinstance(c, ast.Call) and (A.call_name(c) or "").endswith("loan_mgr.create_loan") and [A.dotted(x) for x in c.args] == [sym, amt]
+                  for c in ast.walk(loops[0]))
+    return bo, (ok1, ok2, ok3)
+
+
 def rule_commit_last(ctx: Ctx) -> None:
     ex = exclusions()
+    bo_, prem = l2_premise(ctx)
+    if not all(prem):
+        ex = [e for e in ex if e.name != "L2"]
     an = CL.Analysis(ctx, ex)
     for q in ORDER:
         ok = an.check(q)
@@ -92,6 +124,11 @@ def rule_commit_last(ctx: Ctx) -> None:
         for r in comp:
             ctx.ok("C07.1", f"{short}: failure after partial progress is rolled back", fn, r["node"].ast,
                    f"handler: {r['handler']}; covers {r['raises']}")
+    ctx.check(all(prem), "C07.2", "premise of L2: _borrow covers, per symbol, exactly the shortfall of the AVAILABLE balance against the amount "
+              "to hold", bo_, bo_.node, "post_hold = available - required; short = -post_hold if < 0; create_loan(symbol, short)",
+              f"_borrow no longer computes the shortfall from the available balance (checks: post_hold {prem[0]}, shortfall {prem[1]}, loans "
+              f"{prem[2]}): when funds are already on hold the loans are too small, the hold placed afterwards is refused and the loans "
+              "granted for the rejected order stay open", key_text="L2 premise")
     for e in ex:
         ctx.note(f"C07.1 exclusion {e.name} at {e.caller.split('.', 2)[-1]} -> *{e.callee_suffix}: {e.reason} (applied {e.hits}x)")
         ctx.sample({"rule": "C07.1", "exclusion": e.name, "site": f"{e.caller} -> {e.callee_suffix}", "reason": e.reason})
